@@ -38,6 +38,8 @@ pub enum PgOp {
     /// write a short string across the top of memory (0xFFFE, 0xFFFF, 0x0000, 0x0001) through
     /// pointers and print it with PUTS (false) / PUTSP (true): address arithmetic wraps
     WrapStr(bool),
+    /// read a character (GETC, or IN when true) and print what R0 holds as a number (PUTN)
+    InShow(bool),
 }
 
 #[derive(Clone, Copy, Debug, Serialize, Deserialize, PartialEq, Eq, Hash)]
@@ -78,14 +80,21 @@ pub struct ProgSpec {
     /// instruction mixes for the debugger properties); everything else but the origin is ignored
     #[serde(default)]
     pub raw_words: Option<Vec<u16>>,
+    /// where the image ends (n = number of words, so the loader's HALT sentinel sits at origin+n):
+    /// 0 = wherever it ends; 1/2/3 = a trailing `.blkw` makes origin+n = 0xFFFF (the largest
+    /// loadable image) / 0xFFFE / 0xFE00; 4/5 = the origin is chosen so that origin+n = 0xFDFF (the
+    /// sentinel is the last user word) / 0xFE00 (the last statement is the last user word)
+    #[serde(default)]
+    pub fit: u8,
 }
 
 pub fn pg_op() -> impl Strategy<Value = PgOp> {
-    prop_oneof![
+    crate::pick![
         8 => (0u8..6, 0u8..4, 0u8..4, 0u8..8, -16i8..16).prop_map(|(k, d, s, t, i)| PgOp::Alu(k, d, s, t, i)),
         6 => (0u8..7, 0u8..4, 0u8..8, 0u8..8).prop_map(|(k, r, s, o)| PgOp::Mem(k, r, s, o)),
         3 => (0u8..5, 0u8..4).prop_map(|(k, s)| PgOp::Out(k, s)),
         1 => any::<bool>().prop_map(PgOp::In),
+        1 => any::<bool>().prop_map(PgOp::InShow),
         2 => (1u8..5).prop_map(PgOp::LoopBegin),
         2 => Just(PgOp::LoopEnd),
         2 => (1u8..8, 1u8..3).prop_map(|(f, n)| PgOp::Skip(f, n)),
@@ -99,7 +108,7 @@ pub fn pg_op() -> impl Strategy<Value = PgOp> {
 }
 
 pub fn ending() -> impl Strategy<Value = Ending> {
-    prop_oneof![
+    crate::pick![
         5 => Just(Ending::Halt),
         2 => Just(Ending::RunOff),
         2 => Just(Ending::JmpFfff),
@@ -113,7 +122,7 @@ pub fn ending() -> impl Strategy<Value = Ending> {
 
 fn pg_string() -> impl Strategy<Value = String> {
     prop::collection::vec(
-        prop_oneof![
+        crate::pick![
             8 => (0x20u32..0x7F).prop_map(|c| char::from_u32(c).unwrap()),
             1 => Just('\n'),
             1 => prop::sample::select(vec!['é', 'ÿ', '\u{A0}', '\u{80}']),
@@ -132,10 +141,11 @@ pub fn prog_spec(max_main: usize) -> impl Strategy<Value = ProgSpec> {
         (0u8..10, any::<u16>()),
         any::<bool>(),
         0u8..4,
-        prop::collection::vec(prop_oneof![3 => any::<u16>(), 1 => 0u16..4, 1 => Just(0xFFFF), 1 => Just(0x8000)], 8),
+        prop::collection::vec(crate::pick![3 => any::<u16>(), 1 => 0u16..4, 1 => Just(0xFFFF), 1 => Just(0x8000)], 8),
         prop::collection::vec(pg_string(), 3),
+        crate::pick![12 => Just(0u8), 1 => 1u8..6],
     )
-        .prop_map(|(main, subs, sub_call, ending, (orig_sel, orig_val), stack, recursion, data, strings)| ProgSpec {
+        .prop_map(|(main, subs, sub_call, ending, (orig_sel, orig_val), stack, recursion, data, strings, fit)| ProgSpec {
             main,
             subs,
             sub_call,
@@ -147,6 +157,7 @@ pub fn prog_spec(max_main: usize) -> impl Strategy<Value = ProgSpec> {
             data,
             strings,
             raw_words: None,
+            fit,
         })
 }
 
@@ -260,6 +271,10 @@ fn emit_ops(b: &mut B, ops: &[PgOp], spec: &ProgSpec, level: usize, nsubs: usize
                 _ => b.emit(Stmt::simple(Op::Reg)),
             },
             PgOp::In(echo) => b.emit(Stmt::simple(if *echo { Op::In } else { Op::Getc })),
+            PgOp::InShow(echo) => {
+                b.emit(Stmt::simple(if *echo { Op::In } else { Op::Getc }));
+                b.emit(Stmt::simple(Op::Putn));
+            }
             PgOp::LoopBegin(n) => {
                 if open.len() < 3 {
                     let c = counters[open.len()];
@@ -321,7 +336,7 @@ fn emit_ops(b: &mut B, ops: &[PgOp], spec: &ProgSpec, level: usize, nsubs: usize
             PgOp::Break => b.brk = true,
             PgOp::WrapStr(packed) => {
                 // only when the program itself does not live at the very bottom of memory
-                if origin_for(spec) >= 0x10 {
+                if spec.fit >= 4 || origin_for(spec) >= 0x10 {
                     for k in 0..4 {
                         b.emit(Stmt::new(Op::Ld, &[0], lbl(&format!("V{}", k % 3))));
                         b.emit(Stmt::new(Op::Sti, &[0], lbl(&format!("PW{k}"))));
@@ -396,10 +411,55 @@ pub fn origin_for(spec: &ProgSpec) -> u16 {
 /// Build the program. Layout: [.orig] main, ending, data, subroutines (or, for `RunOff`, data and
 /// subroutines first behind a jump, main last).
 pub fn build(spec: &ProgSpec) -> Built {
-    let orig = origin_for(spec);
+    let nominal = origin_for(spec);
+    match spec.fit {
+        4 | 5 => {
+            // the number of words does not depend on the origin: lay out once to learn it
+            let n = words_of(&build_at(spec, 0x3000, true).program);
+            let end: usize = if spec.fit == 4 { 0xFDFF } else { 0xFE00 };
+            if n == 0 || n > end {
+                return build_at(spec, nominal, false);
+            }
+            build_at(spec, (end - n) as u16, true)
+        }
+        1..=3 => {
+            let mut b = build_at(spec, nominal, false);
+            let n = words_of(&b.program);
+            let end: usize = [0xFFFF, 0xFFFE, 0xFE00][spec.fit as usize - 1];
+            let running_off = spec.raw_words.is_none() && spec.ending == Ending::RunOff;
+            if !running_off && nominal as usize + n < end {
+                // (a program that runs off its end would walk through the padding)
+                let pad = end - nominal as usize - n;
+                // (hex: lace warns about decimal counts above 32767, on the same stream as program output)
+                b.program.lines.push(Line::stmt(None, Stmt::new(Op::Blkw, &[], Operand::Lit(Lit::Hex(pad as u16, 0)))));
+            }
+            b
+        }
+        _ => build_at(spec, nominal, false),
+    }
+}
+
+/// Evidence class of a spec whose image end is forced (see `ProgSpec::fit`).
+pub fn fit_label(spec: &ProgSpec) -> Option<&'static str> {
+    match spec.fit {
+        1 => Some("image-ends-at-xFFFF"),
+        2 => Some("image-ends-at-xFFFE"),
+        3 => Some("image-padded-to-xFE00"),
+        4 => Some("sentinel-on-last-user-word"),
+        5 => Some("last-statement-on-last-user-word"),
+        _ => None,
+    }
+}
+
+fn words_of(p: &Program) -> usize {
+    p.lines.iter().map(|l| if let Body::Stmt(s) = &l.body { s.size().unwrap_or(0) } else { 0 }).sum()
+}
+
+fn build_at(spec: &ProgSpec, orig: u16, force_orig_line: bool) -> Built {
+    let orig_line = spec.orig_sel != 0 || force_orig_line;
     if let Some(words) = &spec.raw_words {
         let mut lines = Vec::new();
-        if spec.orig_sel != 0 {
+        if orig_line {
             lines.push(Line { label: None, body: Body::Orig(Lit::Hex(orig, (spec.orig_sel & 3) as u8)) });
         }
         for (i, w) in words.iter().enumerate() {
@@ -417,7 +477,7 @@ pub fn build(spec: &ProgSpec) -> Built {
     }
     let nsubs = spec.subs.len().min(3);
     let mut b = B { lines: Vec::new(), pending: None, n_label: 0, brk: false };
-    if spec.orig_sel != 0 {
+    if orig_line {
         b.lines.push(Line { label: None, body: Body::Orig(Lit::Hex(orig, (spec.orig_sel & 3) as u8)) });
     }
     let mut selfmods: Vec<(String, u16)> = Vec::new();
